@@ -54,7 +54,7 @@ BASE = {"NKeys": 2, "CommitKinds": '{"Set", "Del", "SoftDel", "Replace"}', "NLev
         "Known": '{"expired_barrier", "index_equal_ts", "index_ooo_unflushed", "ts_filter_before_barrier", "backward_stops_at_hidden_key"}',
         "MaxCommits": 3, "MaxFlushes": 2, "MaxCompactions": 1, "MaxReopens": 1, "MaxTicks": 2, "MaxSteps": 6,
         "WithReader": "FALSE"}
-INVARIANTS = ["ReadPathOK (= HistoryOK /\\ GetAtOK /\\ BackendsAgree)", "LimitOK", "OracleExact"]
+INVARIANTS = ["ReadPathOK (= HistoryOK /\\ GetAtOK /\\ BackendsAgree)", "LimitOK", "OracleExact", "ErasedStaysErasedMC (action property)"]
 
 
 def model_check(ctx, name, timeout=1500, **over):
@@ -94,7 +94,7 @@ def _report(ctx, s, driver_args, extra=None):
 
 def export(ctx, name, sim=None, depth=None, **over):
     c = dict(BASE, **over)
-    text = tlc.cfg_variant(SUB, "HistoryMC.cfg", subst=c, drop=["INVARIANTS"], add=["CONSTRAINT Export"])
+    text = tlc.cfg_variant(SUB, "HistoryMC.cfg", subst=c, drop=["INVARIANTS", "PROPERTY"], add=["CONSTRAINT Export"])
     return tlc.run(SUB, "HistoryMC", "HistoryMC_%s_x.cfg" % name, cfg_text=text, timeout=1500, coverage=False,
                    out_name="hist_x_%s_%s" % (name, ctx.tier), mode="sim" if sim else "bfs", sim=sim, depth=depth,
                    seed=ctx.seed, workers=4 if sim else None)
@@ -273,15 +273,15 @@ def crash_sweep(ctx, n_scenarios, dargs, **over):
 VARIANTS = [
     ("edge", ["--levels", "2"], {}, None, None),
     ("eq", ["--levels", "2", "--block", "64", "--nobloom"],
-     {"EqualTs": "TRUE", "MaxCommits": 4, "MaxFlushes": 3, "MaxCompactions": 2}, (40, 10), (900, 12)),
+     {"EqualTs": "TRUE", "MaxCommits": 4, "MaxFlushes": 3, "MaxCompactions": 2}, (40, 10), (450, 12)),
     ("ooo", ["--levels", "2", "--cache", "0"],
-     {"OutOfOrder": "TRUE", "MaxCommits": 5, "MaxClock": 4, "MaxTicks": 3, "MaxFlushes": 3, "MaxCompactions": 2}, (40, 10), (900, 12)),
+     {"OutOfOrder": "TRUE", "MaxCommits": 5, "MaxClock": 4, "MaxTicks": 3, "MaxFlushes": 3, "MaxCompactions": 2}, (40, 10), (600, 12)),
     ("fin", ["--levels", "3", "--snappy"],
      {"NLevels": 3, "RetentionNs": 2, "TickSteps": "{1, 3}", "MaxClock": 6, "MaxTicks": 3, "MaxCommits": 4, "MaxFlushes": 3,
-      "MaxCompactions": 3}, (50, 12), (1000, 14)),
+      "MaxCompactions": 3}, (50, 12), (450, 14)),
     ("l3", ["--levels", "3", "--vlog-file", "1", "--block", "4096", "--memtable", "65536"],
      {"NLevels": 3, "NKeys": 3, "IndexGC": "TRUE", "WithReader": "TRUE", "MaxCommits": 5, "MaxClock": 4, "MaxTicks": 3,
-      "MaxFlushes": 4, "MaxCompactions": 4, "MaxReopens": 2}, (40, 14), (900, 16)),
+      "MaxFlushes": 4, "MaxCompactions": 4, "MaxReopens": 2}, (40, 14), (300, 16)),
 ]
 
 
